@@ -79,6 +79,12 @@ func (s *CollapsingLowestDenseStore) extendRange(newMinIndex, newMaxIndex int) {
 	if s.IsEmpty() {
 		initialLength := s.getNewLength(newMinIndex, newMaxIndex)
 		s.bins = append(s.bins, make([]float64, initialLength)...)
+		if newMaxIndex-newMinIndex+1 > len(s.bins) {
+			// The range is wider than what the store can hold: only its highest part is kept,
+			// lower indexes are collapsed into the lowest kept bin.
+			newMinIndex = newMaxIndex - len(s.bins) + 1
+			s.isCollapsed = true
+		}
 		s.offset = newMinIndex
 		s.minIndex = newMinIndex
 		s.maxIndex = newMaxIndex
